@@ -594,7 +594,7 @@ func (ps *pathSym) importHelperGuards(h *ssa.Function, callerReader ssa.Value) {
 	var accept *ssa.Return
 	n := 0
 	for _, b := range h.Blocks {
-		if ret, ok := b.Instrs[len(b.Instrs)-1].(*ssa.Return); ok && isNilConst(ret.Results[len(ret.Results)-1]) {
+		if ret, ok := b.Instrs[len(b.Instrs)-1].(*ssa.Return); ok && isNilConst(retVals(ret)[len(retVals(ret))-1]) {
 			accept = ret
 			n++
 		}
